@@ -155,17 +155,10 @@ func (d *DFA) FindAt(cache *DFACache, haystack []byte, at int) int {
 	}
 
 	if at == len(haystack) {
-		// At end of input - check if empty string matches
-		if d.matchesEmpty(cache) {
+		// At end of input - check if the empty string matches HERE (look-around
+		// is evaluated against the byte before 'at', not against an empty haystack)
+		if d.matchesEmptyAt(haystack, at) {
 			return at
-		}
-		return -1
-	}
-
-	if len(haystack) == 0 {
-		// Check if empty string matches
-		if d.matchesEmpty(cache) {
-			return 0
 		}
 		return -1
 	}
@@ -193,15 +186,8 @@ func (d *DFA) SearchAt(cache *DFACache, haystack []byte, at int) int {
 	}
 
 	if at == len(haystack) {
-		if d.matchesEmpty(cache) {
+		if d.matchesEmptyAt(haystack, at) {
 			return at
-		}
-		return -1
-	}
-
-	if len(haystack) == 0 {
-		if d.matchesEmpty(cache) {
-			return 0
 		}
 		return -1
 	}
@@ -222,15 +208,8 @@ func (d *DFA) SearchAtAnchored(cache *DFACache, haystack []byte, at int) int {
 	}
 
 	if at == len(haystack) {
-		if d.matchesEmpty(cache) {
+		if d.matchesEmptyAt(haystack, at) {
 			return at
-		}
-		return -1
-	}
-
-	if len(haystack) == 0 {
-		if d.matchesEmpty(cache) {
-			return 0
 		}
 		return -1
 	}
@@ -336,15 +315,8 @@ func (d *DFA) SearchFirstAt(cache *DFACache, haystack []byte, at int) int {
 	}
 
 	if at == len(haystack) {
-		if d.matchesEmpty(cache) {
+		if d.matchesEmptyAt(haystack, at) {
 			return at
-		}
-		return -1
-	}
-
-	if len(haystack) == 0 {
-		if d.matchesEmpty(cache) {
-			return 0
 		}
 		return -1
 	}
@@ -529,7 +501,7 @@ func (d *DFA) searchFirstAt(cache *DFACache, haystack []byte, startPos int) int 
 //	}
 func (d *DFA) IsMatch(cache *DFACache, haystack []byte) bool {
 	if len(haystack) == 0 {
-		return d.matchesEmpty(cache)
+		return d.matchesEmptyAt(haystack, 0)
 	}
 
 	// With tagged start states, searchEarliestMatch handles prefilter correctly:
@@ -546,7 +518,7 @@ func (d *DFA) IsMatch(cache *DFACache, haystack []byte) bool {
 func (d *DFA) IsMatchAt(cache *DFACache, haystack []byte, at int) bool {
 	if at >= len(haystack) {
 		if at == len(haystack) {
-			return d.matchesEmpty(cache)
+			return d.matchesEmptyAt(haystack, at)
 		}
 		return false
 	}
@@ -1633,18 +1605,40 @@ func (d *DFA) nfaFallback(haystack []byte, startPos int) int {
 	return end
 }
 
-// matchesEmpty checks if the pattern matches an empty string
-func (d *DFA) matchesEmpty(cache *DFACache) bool {
-	// With 1-byte match delay, the start state is never tagged as match.
-	// Check if the start state's NFA states contain a match (for empty patterns).
-	startState := cache.getState(StartState)
-	if startState != nil && containsNFAMatch(d.nfa, startState.NFAStates()) {
-		return true
+// matchesEmptyAt reports whether the pattern matches the empty string at
+// position at == len(haystack), i.e. whether a Match state is reachable from the
+// start state without consuming input.
+//
+// Look-around is evaluated in the real context of that position: the byte before
+// it is haystack[at-1] (none if at == 0) and there is no byte after it. Asking the
+// question about an EMPTY haystack instead (as if at were 0) makes \A/^ hold at
+// at > 0 ("^" on "a" at 1), confuses (?m)^ after a non-newline and evaluates
+// \b/\B with a non-word byte on the left whatever haystack[at-1] is.
+//
+// The anchored and the unanchored start state give the same answer here: the
+// unanchored prefix can only add threads by consuming a byte.
+func (d *DFA) matchesEmptyAt(haystack []byte, at int) bool {
+	look := LookEndText | LookEndLine
+	prevIsWord := false
+	if at == 0 {
+		look |= LookStartText | LookStartLine
+	} else {
+		prev := haystack[at-1]
+		if prev == '\n' {
+			look |= LookStartLine
+		}
+		prevIsWord = isWordByte(prev)
+	}
+	// No byte after 'at': the right-hand side counts as a non-word byte.
+	if prevIsWord {
+		look |= LookWordBoundary
+	} else {
+		look |= LookNoWordBoundary
 	}
 
-	// Fall back to NFA for empty match check (handles word boundaries, etc.)
-	start, end, matched := d.pikevm.Search([]byte{})
-	return matched && start == 0 && end == 0
+	builder := NewBuilderWithWordBoundary(d.nfa, d.config, d.hasWordBoundary)
+	closure := builder.epsilonClosure([]nfa.StateID{d.nfa.StartAnchored()}, look)
+	return builder.containsMatchState(closure)
 }
 
 // tryDetectAccelerationWithCache attempts acceleration detection using flatTrans.
